@@ -35,6 +35,10 @@ CHECKS.update({
    text="For each of the 8 entry points that are told their input size: the length parameter must flow into a branch (directly, through a reader-object field, or in a callee), and every load, memcpy source and callee read through the input pointer is proved to end at or before the declared length from dominating conditions (end-pointer tests, n-vs-first-byte tests, switch constants, division guards, strided cursors with symbolic stride), interprocedurally. Unproven = reported. Termination is not decided.",
    note=TB + "Values decoded from input bytes are unconstrained; arithmetic is over mathematical integers (wrap of input-derived products is not modelled - see level text); 3 known findings (both Elias array decoders, varintRLEGetRunCount).",
    tech="static analysis: symbolic region-bounds analysis of reads + length-parameter use-def reachability on LLVM IR"),
+ "C12": dict(engine="dataflow rules on SSA", cat="other", ref="DESIGN.md 4/C12",
+   text="Every function performing the checked signed add (varintTaggedAdd, varintExternalAdd_) is matched against the decode / checked-add / measure / conditional-put shape: measured value == stored value == the intrinsic's sum (SSA identity), the put is dominated by the no-overflow edge and by the strict newWidth > oldWidth test (growth only behind force), the overflow edge returns 0 and reaches no write through the varint pointer. The byte extent of the put itself (exactly width(value) bytes) is C01's clause, referenced not re-proved.",
+   note=TB + "Pattern-specific: a differently shaped implementation is reported as analysis-broken (exit 2), not as a pass.",
+   tech="static analysis: SSA value-identity and dominance rules on LLVM IR"),
 })
 NA = {
  "C02": "losslessness of array codecs is value-level equality after arithmetic; no clause has a shape in the code that static analysis can decide (DESIGN.md 4/C02)",
